@@ -2980,6 +2980,9 @@ class bs_rel_off(bs_cond_imm):
         assert(parent_len % 8 == 0)
 
         v = int(self.expr) - parent_len // 8
+        if v < 0:
+            # A branch to its own address has a negative displacement
+            v &= (1 << l) - 1
         if prefix is None:
             return
         mask = ((1 << self.l) - 1)
